@@ -571,5 +571,29 @@ def check_vtt(pid, tier, seed, scratch, replay):
     ))
 
 
+@register("C04")
+def check_ssa(pid, tier, seed, scratch, replay):
+    return codec_check(pid, tier, seed, scratch, dict(
+        name="ssa", gen_module="GenSsa", gen_cfg="GenSsa.cfg", drive_cmd="ssa", trace_module="TraceSsa", trace_cfg="TraceSsa.cfg",
+        mc=[("SsaMC", "MC_Ssa_S.cfg", None), ("SsaMC", "MC_Ssa_E.cfg", None), ("SsaMC", "MC_Ssa_F.cfg", None)],
+        gens=[(dict(GEN_FAM="S"), 2, 2, None), (dict(GEN_FAM="E"), 6, 6, None), (dict(GEN_FAM="F"), 3, 3, None)],
+        nrand=(0, 0), per_jvm=2000,
+        rule=("TLC enumerates ground truths of three families - S: one style over Name + 4 typed columns (string, float, colour, "
+              "boolean) x all 120 permutations of the Format line x v4/v4+ x decimal/&H colours; E: one Dialogue over Layer|Marked, "
+              "Style, Name, Effect x all 24 column permutations (Text last) x 6 text structures (runs at {..} blocks, \\N / \\n "
+              "lines, commas in text) x '*'-prefixed style names x two instants; F: two styles over all 24 (v4: 18) columns with "
+              "different attribute subsets, full event rows, 3 column orders, script info subsets, ';' comments, unknown section + "
+              "junk lines, LF/CRLF/CR, BOM - and every rendering; documents are concretised (section-name spellings, H: vs HH: "
+              "hours) and read by ReadFromSSA; each truth is written by WriteToSSA, lexed by the harness's Format-driven lexer, "
+              "decoded by the TLA+ reference decoder, re-read by the library and written a second time (byte fixpoint). "
+              "Non-trivial = distinct (truth, rendering, pool)."),
+        assumptions=["Text is the last column of the event Format (format description); only the first run of a line may lack an override block",
+                     "absent cells and default values (0, empty) denote the same attribute (SameRow)",
+                     "the reference decoder is model-checked against every rendering in the same run (SsaMC)"],
+        nontrivial=lambda ev: True,
+        key=lambda ev: [ev["dir"], ev["g"], ev["d"], ev["n"] % 2],
+    ))
+
+
 def selftest(pid, tier, seed, scratch, replay):
     raise Infra("selftest not implemented yet")
